@@ -45,11 +45,12 @@ def layout_defs(L):
     return d
 
 
-def mk(prefix, L, op, extra, sfx, checks='func', leak=False, timeout=600, safety_owner='C07'):
+def mk(prefix, L, op, extra, sfx, more=None, checks='func', leak=False, timeout=600, safety_owner='C07'):
     d = layout_defs(L)
     d['VF_OP'] = OPS[op]
     d['VF_ALLOC_MAX'] = D + (L['M'] - 1) * E
     d.update(extra or {})
+    d.update(more or {})
     M = L['M']
     return Case('%s.ha.%s.%s%s' % (prefix, op, L['id'], sfx), 'hasharr.c', d, unwind=max(M * E + 6, 30), unwindset={'find_avail.0': M + 1, 'remove_data.0': M + 1, 'put_data.0': M + 2, 'get_idx.0': M + 1, 'qhasharr_remove_by_idx.0': M + 1, 'get_data.0': M + 1, 'get_data.1': M + 1, 'qhasharr_getnext.0': M + 2, 'qhasharr_put_by_obj': 2}, checks=checks, leak=leak, timeout=timeout, object_bits=10,
                 funcs=FUNCS[op], safety_owner=safety_owner,
@@ -69,7 +70,7 @@ def vsizes(M, tier, few=False):
     return base
 
 
-def step_cases(tier, prefix='c06', ops=('PUT', 'GET', 'REMOVE', 'REMOVE_IDX', 'WALK', 'CLEAR', 'SIZE'), Ms=None, filt=None, few=False, **kw):
+def step_cases(tier, prefix='c06', ops=('PUT', 'GET', 'REMOVE', 'REMOVE_IDX', 'WALK', 'CLEAR', 'SIZE'), Ms=None, filt=None, few=False, replace_only=False, extra=None, **kw):
     q = tier == 'quick'
     Ms = Ms or ([2] if q else [2, 3])
     out = []
@@ -83,9 +84,11 @@ def step_cases(tier, prefix='c06', ops=('PUT', 'GET', 'REMOVE', 'REMOVE_IDX', 'W
                     for H in range(M):
                         kcs = [-1] + [i for i, h in enumerate(homes) if h == H]
                         for kc in kcs:
+                            if op == 'PUT' and replace_only and kc < 0 and L['used'] < M - 1:
+                                continue  # quick C07: new-key puts only where they must relocate/chain into the last free slots
                             if op == 'PUT':
                                 for vs in vsizes(M, tier, few):
-                                    out.append(mk(prefix, L, op, {'VF_OPHOME': H, 'VF_KCLASS': kc, 'VF_VSZ': vs}, '.h%d.k%s.v%d' % (H, 'new' if kc < 0 else kc, vs), **kw))
+                                    out.append(mk(prefix, L, op, {'VF_OPHOME': H, 'VF_KCLASS': kc, 'VF_VSZ': vs}, '.h%d.k%s.v%d' % (H, 'new' if kc < 0 else kc, vs), more=extra, **kw))
                             elif op == 'GET' and kc >= 0:
                                 # get() allocates the value size and copies from the matching slot: key lengths, the final-block fill of that key
                                 # and the first key byte (tag) are per-query constants so that the slot index is decided during symbolic execution
@@ -94,23 +97,23 @@ def step_cases(tier, prefix='c06', ops=('PUT', 'GET', 'REMOVE', 'REMOVE_IDX', 'W
                                         fills = [0] * len(homes)
                                         fills[kc] = fill
                                         out.append(mk(prefix, L, op, {'VF_OPHOME': H, 'VF_KCLASS': kc, 'VF_FILLS': arr(fills), 'VF_KLENS': arr([kl] * len(homes)), 'VF_KEYTAG': None},
-                                                      '.h%d.k%d.kl%d.%s' % (H, kc, kl, fs), **kw))
+                                                      '.h%d.k%d.kl%d.%s' % (H, kc, kl, fs), more=extra, **kw))
                             elif op == 'GET':
                                 for (kl, okl) in ((1, 1), (2, 2), (3, 3), (3, 2), (2, 3)) if homes else ((1, 1), (1, 3)):
                                     out.append(mk(prefix, L, op, {'VF_OPHOME': H, 'VF_KCLASS': kc, 'VF_KLENS': arr([kl] * max(1, len(homes))), 'VF_OPKLEN': okl, 'VF_KEYTAG': None,
-                                                                  'VF_FILLS': arr([1] * max(1, len(homes)))}, '.h%d.knew.kl%d.o%d' % (H, kl, okl), **kw))
+                                                                  'VF_FILLS': arr([1] * max(1, len(homes)))}, '.h%d.knew.kl%d.o%d' % (H, kl, okl), more=extra, **kw))
                             else:
-                                out.append(mk(prefix, L, op, {'VF_OPHOME': H, 'VF_KCLASS': kc}, '.h%d.k%s' % (H, 'new' if kc < 0 else kc), **kw))
+                                out.append(mk(prefix, L, op, {'VF_OPHOME': H, 'VF_KCLASS': kc}, '.h%d.k%s' % (H, 'new' if kc < 0 else kc), more=extra, **kw))
                 elif op == 'REMOVE_IDX':
                     for i in range(M):
-                        out.append(mk(prefix, L, op, {'VF_IDX': i}, '.i%d' % i, **kw))
+                        out.append(mk(prefix, L, op, {'VF_IDX': i}, '.i%d' % i, more=extra, **kw))
                 elif op == 'WALK' and homes:
                     # getnext() allocates name and value copies: key lengths and final fills are per-query constants
                     for kl in (1, 2, 3):
                         for fill, fs in ((1, 'f1'), (255, 'ffull')):
-                            out.append(mk(prefix, L, op, {'VF_KLENS': arr([kl] * len(homes)), 'VF_FILLS': arr([fill] * len(homes)), 'VF_KEYTAG': None}, '.kl%d.%s' % (kl, fs), **kw))
+                            out.append(mk(prefix, L, op, {'VF_KLENS': arr([kl] * len(homes)), 'VF_FILLS': arr([fill] * len(homes)), 'VF_KEYTAG': None}, '.kl%d.%s' % (kl, fs), more=extra, **kw))
                 else:
-                    out.append(mk(prefix, L, op, {}, '', **kw))
+                    out.append(mk(prefix, L, op, {}, '', more=extra, **kw))
     return out
 
 
@@ -132,12 +135,33 @@ def ctor_cases(tier, prefix='c07'):
     return out
 
 
+def chained3(L):
+    """quick-tier subset of the M=3 layouts: at most two keys, one of them with an extension block, first key slot 0
+    (the slot graph code is symmetric under cyclic rotation of the slot indexes: find_avail/get_idx scan circularly from the home
+    slot; the thorough tier runs all 53 layouts)"""
+    ch = L['chains']
+    return L['M'] == 3 and 1 <= len(ch) <= 2 and any(len(sl) >= 2 for (_, sl) in ch) and ch[0][1][0] == 0
+
+
 def cases(tier, mode='func'):
     q = tier == 'quick'
     if mode == 'func':
+        if q:
+            return step_cases(tier) + step_cases(tier, ops=('REMOVE', 'REMOVE_IDX'), Ms=[3], filt=chained3)
         return step_cases(tier)
     if mode == 'c07':
-        return step_cases(tier, prefix='c07', checks='safety', ops=('PUT', 'REMOVE', 'REMOVE_IDX', 'GET', 'CLEAR'), Ms=[2] if q else [2, 3], few=q) + ctor_cases(tier)
+        if q:
+            # well-formedness + region safety where it is at stake, sized for the every-change budget:
+            #  M=3, layouts with a chained value: promotion of a collision key / removal by index (all 16 representatives), replacement of
+            #  a chained value by a short one (the two single-key representatives); M=2: relocated-copy GET, CLEAR, REMOVE(_IDX) and
+            #  PUT on layouts with at most one key under the pointer checks; the constructor
+            e = {'VF_C07': None}
+            one_chain = lambda L: chained3(L) and L['nkeys'] == 1 and L['used'] == 2
+            return step_cases(tier, prefix='c07', ops=('REMOVE', 'REMOVE_IDX'), Ms=[3], filt=chained3, extra=e) + \
+                [c for c in step_cases(tier, prefix='c07', ops=('PUT',), Ms=[3], filt=one_chain, few=True, extra=e) if '.k0.v1' in c.cid] + \
+                step_cases(tier, prefix='c07', checks='safety', ops=('GET', 'CLEAR', 'REMOVE_IDX', 'REMOVE'), Ms=[2], extra=e) + \
+                step_cases(tier, prefix='c07', checks='safety', ops=('PUT',), Ms=[2], few=True, filt=lambda L: L['nkeys'] <= 1, extra=e) + ctor_cases(tier)
+        return step_cases(tier, prefix='c07', checks='safety', ops=('PUT', 'REMOVE', 'REMOVE_IDX', 'GET', 'CLEAR'), Ms=[2, 3], extra={'VF_C07': None}) + ctor_cases(tier)
     if mode == 'safety':
         return step_cases(tier, prefix='c11', checks='safety', leak=True, Ms=[2], safety_owner='C11', few=True, filt=(lambda L: L['nkeys'] <= 1) if q else None, ops=('PUT', 'REMOVE', 'WALK', 'GET') if q else ('PUT', 'GET', 'REMOVE', 'REMOVE_IDX', 'WALK', 'CLEAR'))
     if mode == 'copy':
